@@ -9,6 +9,7 @@ CONSTANTS
   BodyMode = "len"
   StyleMode = "all"
   PhraseMode = "free"
+  ManyMode = "none"
   MaxBig = 48
 INIT MCInit
 NEXT GenNext
